@@ -75,6 +75,7 @@ type External interface {
 // World is one simulated process group inside one synctest bubble.
 type World struct {
 	mu      sync.Mutex
+	due     map[int64]bool // deadlines handed out by NewTimer/TimerReset/After: no two are equal
 	tasks   []*Task
 	cur     *Task
 	wake    chan struct{}
@@ -862,6 +863,38 @@ func AfterFunc(d time.Duration, f func()) *time.Timer {
 		t.main(f)
 	})
 }
+
+// uniqueDelay stretches d by the few nanoseconds it takes for the deadline to differ from every deadline handed
+// out before in this world. One task that waits in a native select on two timer channels due at the same fake
+// instant is woken by whichever the runtime's timer heap pops first, and the order of equal deadlines in that heap
+// depends on unrelated timers of the process: with unique deadlines the tie cannot arise.
+func uniqueDelay(d time.Duration) time.Duration {
+	w := W
+	if w == nil || w.Parallel || d < 0 {
+		return d
+	}
+	now := time.Now().UnixNano()
+	when := now + int64(d)
+	w.mu.Lock()
+	if w.due == nil {
+		w.due = map[int64]bool{}
+	}
+	for w.due[when] {
+		when++
+	}
+	w.due[when] = true
+	w.mu.Unlock()
+	return time.Duration(when - now)
+}
+
+// NewTimer replaces time.NewTimer.
+func NewTimer(d time.Duration) *time.Timer { return time.NewTimer(uniqueDelay(d)) }
+
+// After replaces time.After.
+func After(d time.Duration) <-chan time.Time { return time.After(uniqueDelay(d)) }
+
+// TimerReset replaces (*time.Timer).Reset.
+func TimerReset(t *time.Timer, d time.Duration) bool { return t.Reset(uniqueDelay(d)) }
 
 // RandIntn replaces math/rand.Intn.
 func RandIntn(n int) int {
